@@ -28,6 +28,7 @@ import (
 	endpointcontract "github.com/teleport-network/teleport/syscontracts/xibc_endpoint"
 	packetcontract "github.com/teleport-network/teleport/syscontracts/xibc_packet"
 	aggregatetypes "github.com/teleport-network/teleport/x/aggregate/types"
+	tsstypes "github.com/teleport-network/teleport/x/xibc/clients/tss-client/types"
 	clienttypes "github.com/teleport-network/teleport/x/xibc/core/client/types"
 	"github.com/teleport-network/teleport/x/xibc/core/host"
 	packettypes "github.com/teleport-network/teleport/x/xibc/core/packet/types"
@@ -113,7 +114,13 @@ func New(cfg Config) *Sys {
 				if m == n {
 					continue
 				}
-				world.CreateTMClient(c, ctx, s.w.Chains[m])
+				if cfg.TSS && n == A && m == B {
+					// A's client of B is a TSS client whose configured account is u2
+					tcs := &tsstypes.ClientState{TssAddress: c.Accounts["u2"].Acc.String(), Pubkey: []byte{1}, PartPubkeys: [][]byte{{2}}, Threshold: 1}
+					must(c.App.XIBCKeeper.ClientKeeper.CreateClient(ctx, m, tcs, &tsstypes.ConsensusState{}))
+				} else {
+					world.CreateTMClient(c, ctx, s.w.Chains[m])
+				}
 				world.RegisterRelayers(c, ctx, m, "r1", "r2")
 			}
 			u1 := c.Accounts["u1"]
@@ -144,9 +151,6 @@ func New(cfg Config) *Sys {
 				}
 			}
 		})
-	}
-	if cfg.TSS {
-		s.setupTSS()
 	}
 	return s
 }
@@ -1000,3 +1004,54 @@ func (s *Sys) ledgerString() string {
 	}
 	return strings.Join(out, " ")
 }
+
+// ---- accessors used by other checks (C06, C13, C14) ----
+
+// World returns the live world.
+func (s *Sys) World() *world.World { return s.w }
+
+// Token returns a token address by its harness name (e.g. "A:erc20", "B:bound:A:erc20").
+func (s *Sys) Token(name string) common.Address { return s.tok[name] }
+
+// Transfers lists the ids of the ledger.
+func (s *Sys) Transfers() []string {
+	var out []string
+	for _, t := range s.tr {
+		out = append(out, t.ID)
+	}
+	return out
+}
+
+// GenuineRecv builds the genuine receive message of a transfer, signed-for by the named account of the destination chain.
+func (s *Sys) GenuineRecv(id, signer string) (*packettypes.MsgRecvPacket, *world.Chain) {
+	t := s.find(id)
+	msgs, _, dst, _ := s.recvMsg(t, "g1")
+	m := msgs[0].(*packettypes.MsgRecvPacket)
+	m.Signer = dst.Accounts[signer].Acc.String()
+	return m, dst
+}
+
+// GenuineAck builds the genuine acknowledgement message of a transfer.
+func (s *Sys) GenuineAck(id, signer string) (*packettypes.MsgAcknowledgement, *world.Chain) {
+	t := s.find(id)
+	msg, _, src := s.ackMsg(t, "g1")
+	m := msg.(*packettypes.MsgAcknowledgement)
+	m.Signer = src.Accounts[signer].Acc.String()
+	return m, src
+}
+
+// Run applies a scripted list of operations and panics on any monitor violation (fixture building).
+func (s *Sys) Run(ops ...string) {
+	for _, op := range ops {
+		_, _, vs := s.Apply(op)
+		if len(vs) > 0 {
+			panic(fmt.Sprintf("fixture op %q: %v", op, vs))
+		}
+	}
+}
+
+// DumpStores dumps the monitored stores of a chain.
+func DumpStores(c *world.Chain) map[string]map[string]string { return dumpAll(c) }
+
+// DiffStores lists differing keys.
+func DiffStores(a, b map[string]map[string]string) []string { return diffAll(a, b) }
